@@ -185,6 +185,11 @@ def r_reseek(ctx):
                 elif "seek" in kinds:
                     tgt = unmut(anchor.d["args"][1]) if len(anchor.d["args"]) > 1 else None
                     ok_anchor = tgt is not None and tgt[0] == "v" and tgt[1].startswith("param:") and anchor.loops == last.loops
+                    if not ok_anchor and is_call_to(tgt, lambda s: s.endswith("SeekFrom::Start")) and tgt[2]:
+                        # … or an absolute seek to a position this function itself observed on the stream before anything moved it
+                        seen = [e for e in prior if set(k for k, ks in e.d["effects"] if S in ks) == {"pos"} and unmut(e.d["ret"]) == unmut(tgt[2][0])]
+                        moved_before = [e for e in prior if seen and e.seq < seen[0].seq and any(k in ("write", "seek", "unknown") for k, ks in e.d["effects"] if S in ks)]
+                        ok_anchor = bool(seen) and not moved_before and anchor.loops == last.loops
                     why = "root attempt preceded by seek(%s) in the same iteration" % tstr(tgt)[:60]
             obs.append(Ob("R-RESEEK", fn, "root attempt starts at the remembered root start", ok_anchor, why, last.loc()))
             after = [e for e in effs if e.seq > last.seq and any(k in ("write", "seek", "unknown", "flush", "close") for k, ks in e.d["effects"] if S in ks)]
